@@ -37,6 +37,7 @@ def run(ck, ctx):
     ck.nd("bit-identity of payloads is delegated to CRC32 (detection probability not analysed)")
     ck.nd("behaviour for every corruption offset / torn length at run time")
     ck.rule("R10.10", NAME_TEXT)
+    ck.rule("R10.11", JUDGE_TEXT)
     for cfg in ctx.configs:
         prog = ctx.prog(cfg)
         ck.configs.append(cfg)
@@ -49,6 +50,7 @@ def run(ck, ctx):
         _r108(ck, prog, cfg)
         r109(ck, prog, cfg, "R10.9")
         r1010(ck, prog, cfg, "R10.10")
+        r1011(ck, prog, cfg, "R10.11")
         _bounds.rule(ck, prog, cfg, "R10.7", ("src/streaming/wal.rs",), "a WAL file torn at that offset", floor=6, tag=_tag(cfg))
 
 
@@ -573,3 +575,84 @@ def r1010(ck, prog, cfg, rid):
                  "the name recogniser's prefix/suffix %s or radix %s are not the ones the name writer formats with" % (pre, radix), f.where(),
                  detail="prefix %s suffix, radix %s; used by %s" % (pre, radix, sorted(users)))
     ck.floor(rid + _tag(cfg), n, 2)
+
+
+# ------------------------------------------------------------------------------------------------
+JUDGE_TEXT = ("the reader does not judge what the decoder accepted: in WalReader::entries no branch depends on the content of a decoded entry "
+              "(its stamp, its payload, its size) - the walk ends only where decode fails or the data ends. Stamps in one file are not monotone "
+              "(independent shard clocks, concurrent writers share a group commit), so a `stale tail` test on them cuts off intact, fsynced, "
+              "acknowledged entries")
+
+
+def _taint(f, seeds):
+    t = set(seeds)
+
+    def mentions(node):
+        if isinstance(node, dict):
+            if "l" in node and isinstance(node["l"], int) and node["l"] in t:
+                return True
+            return any(mentions(v) for v in node.values())
+        if isinstance(node, list):
+            return any(mentions(v) for v in node)
+        return False
+    ch = True
+    while ch:
+        ch = False
+        for b, i, st in f.stmts():
+            l = st["lhs"].get("l")
+            if l not in t and mentions(st["rv"]):
+                t.add(l)
+                ch = True
+        for b, tm in f.calls():
+            d = tm.get("dest")
+            if d is not None and d.get("l") not in t and mentions(tm.get("args")):
+                t.add(d["l"])
+                ch = True
+    return t
+
+
+def r1011(ck, prog, cfg, rid):
+    ent0 = prog.one(W + "WalReader::entries")
+    bodies = [ent0] + [c for c in prog.children(ent0) if any(is_callee(t, r"WalEntry::decode$") for _, t in c.calls())]
+    n = 0
+    for g in bodies:
+        decs = [t for _, t in g.calls() if is_callee(t, r"WalEntry::decode$") and "p" not in t["dest"]]
+        if not decs:
+            continue
+        n += 1
+        seeds = {t["dest"]["l"] for t in decs}
+        for _, t in g.calls():
+            if is_callee(t, r"Try>::branch$") and op_local(t["args"][0]) in seeds and "p" not in t["dest"]:
+                seeds = seeds | {t["dest"]["l"]}
+        # the entry component of decode's (entry, consumed) result - the consumed size legitimately drives the walk
+        entry_locals = set()
+        for b, i, st in g.stmts():
+            rv = st["rv"]
+            pl = op_place(rv["a"]) if rv["k"] == "use" and "c" not in rv["a"] else (rv.get("pl") if rv["k"] == "ref" else None)
+            if pl is not None and pl["l"] in seeds:
+                fl = [e["f"] for e in pl.get("p", []) if isinstance(e, dict) and "f" in e]
+                if fl[:2] == ["0", "0"] and st["lhs"].get("l") is not None:
+                    entry_locals.add(st["lhs"]["l"])
+        tainted = _taint(g, entry_locals)
+        bad = []
+        for sb in sorted(g.reachable_blocks()):
+            t = g.term(sb)
+            if t["k"] != "switch":
+                continue
+            si = switch_info(g, sb)
+            if si and si["kind"] == "discr":
+                src = si["src"]
+                # the Some/None test of the decode result itself (directly or through `?`)
+                if ("p" not in si["place"] and si["place"]["l"] in seeds) or \
+                        (src is not None and src.kind == "call" and is_callee(src.term, r"Try>::branch$") and op_local(src.term["args"][0]) in seeds):
+                    continue
+            l = op_local(t["d"])
+            if l in tainted:
+                # consumed-size arithmetic (checked_add(..).expect) does not branch in the reader; anything left is a judgement
+                if si and si["kind"] == "discr" and si["src"] is not None and si["src"].kind == "call" and is_callee(si["src"].term, r"checked_add$|Option::<usize>::(expect|unwrap)$"):
+                    continue
+                bad.append(t["ln"])
+        ck.check(not bad, rid, "entries:no-branch-on-entry-content" + _tag(cfg),
+                 "WalReader::entries branches on the content of a decoded entry (line %s): entries the decoder accepted are skipped or end the walk by "
+                 "a criterion the writer does not guarantee" % bad[:3], g.where(bad[0]) if bad else g.where(), detail="loop ends at decode failure / end of data only")
+    ck.floor(rid + _tag(cfg), n, 1)
